@@ -114,18 +114,22 @@ func (ps Params) Declarations() string {
 	return result.String()
 }
 
+// keepNames settles the user-chosen names. It runs for inputs and outputs before any name is
+// generated (see Method.ensureParamNames) so that generated names give way to the user's.
+func (ps Params) keepNames(paramDeduper map[string]int) {
+	for _, p := range ps {
+		if p.Name != "" && p.Name != "_" {
+			p.Name = reserveParamName(paramDeduper, getSafeParamName(paramDeduper, p.Name, false))
+		}
+	}
+}
+
+// ensureNames names the unnamed parameters; keepNames must have run first.
 func (ps Params) ensureNames(paramDeduper map[string]int, isOutput bool) {
 	// paramName == the unnamed parameter paramName to use.
 	prefix := "arg"
 	if isOutput {
 		prefix = "ret"
-	}
-	// To better preserve a customer's naming in case of them colliding with our own,
-	// process the named variables first:
-	for _, p := range ps {
-		if p.Name != "" && p.Name != "_" {
-			p.Name = getSafeParamName(paramDeduper, p.Name, false)
-		}
 	}
 
 	for i, p := range ps {
@@ -137,6 +141,7 @@ func (ps Params) ensureNames(paramDeduper map[string]int, isOutput bool) {
 			} else {
 				p.Name = getSafeParamName(paramDeduper, prefix, true)
 			}
+			reserveParamName(paramDeduper, p.Name)
 		}
 	}
 }
@@ -157,17 +162,29 @@ func (p Param) Declaration() string {
 }
 
 // getSafeParamName returns a "safe" param name.
-// note: I'm pretty sure this is technically only safe when the already defined params
-// are processed first which is exactly what ensureNames does.
+// note: this is only safe when the already defined params are processed first
+// which is exactly what Method.ensureParamNames does.
 func getSafeParamName(paramDeduper map[string]int, paramName string, alwaysNumber bool) string {
 	v, ok := paramDeduper[paramName]
 	result := paramName
 	if ok || alwaysNumber {
-		result += strconv.FormatInt(int64(v), 10)
-		v++
+		// number the name, skipping numbers that would produce a name which is already
+		// spoken for (e.g. a parameter the user named "arg0").
+		for taken := true; taken; _, taken = paramDeduper[result] {
+			result = paramName + strconv.FormatInt(int64(v), 10)
+			v++
+		}
 	}
 	// else don't modify the intended paramName.
 	// ensure the paramName is in the map:
 	paramDeduper[paramName] = v
 	return result
+}
+
+// reserveParamName marks a name that has been handed out as taken.
+func reserveParamName(paramDeduper map[string]int, name string) string {
+	if _, ok := paramDeduper[name]; !ok {
+		paramDeduper[name] = 0
+	}
+	return name
 }
